@@ -4,7 +4,7 @@
 import json, os, re, glob
 HERE = os.path.dirname(os.path.dirname(os.path.abspath(__file__)))
 conf = {}
-for f in ("/var/tmp/confirm_all.log", "/var/tmp/confirm_C05.log"):
+for f in ("/var/tmp/confirm_merged.log", "/var/tmp/confirm_C05.log"):
     if os.path.exists(f):
         for l in open(f):
             m = re.match(r"CONFIRM (\S+) (step\d) ([^:]+): (.*)", l)
@@ -14,7 +14,7 @@ for f in ("/var/tmp/confirm_all.log", "/var/tmp/confirm_C05.log"):
                 conf.setdefault(m.group(1), {})[m.group(2) + " " + m.group(3)] = r[0] if r else txt[:120]
 ev = {}
 cur = None
-for l in open("/var/tmp/seed_eval.log"):
+for l in open("/var/tmp/seed_eval_all.log"):
     m = re.match(r"SEED (\S+)/patch.diff vs (\S+): exit=(\d+)", l)
     if m:
         cur = m.group(1)
